@@ -1,6 +1,7 @@
 import Lox.Drv.Common
 import Lox.LR.Model
 import Lox.LR.Sugar
+import Lox.LR.DrvValidate
 /-! Driver ops of the LR vertical.
 
 `lr.parse <withBounds 0|1> <fuel> | _rules | _termCounts | _actions | _goto | kinds | tokens`
@@ -18,12 +19,12 @@ def showOutcome : Outcome → String
   | .timeout => "timeout"
   | .panic _ => "panic"
 
-def showEvent (kinds : Array Nat) : Event → Option String
+def showEvent (kinds : Array Nat) (rules : Array Int) : Event → Option String
   | .act p kids =>
     if Kind.ofCode (kinds[p]?.getD 0) == .user then
-      some ("A " ++ (interp kinds (.node p kids)).render)
+      some ("A " ++ (interp kinds rules (.node p kids)).render)
     else none
-  | .bounds _ v b e => some ("B " ++ (interp kinds v).render ++ " " ++ toString b ++ " " ++ toString e)
+  | .bounds _ v b e => some ("B " ++ (interp kinds rules v).render ++ " " ++ toString b ++ " " ++ toString e)
 
 def handleParse (payload : String) : Option String := do
   match payload.splitOn "|" with
@@ -37,13 +38,16 @@ def handleParse (payload : String) : Option String := do
     let kinds := (← parseNats kinds).toArray
     let toks := (← parseNats toks).toArray
     let (o, s) := parse T toks (wb == 1) fuel
-    let evs := s.log.reverse.filterMap (showEvent kinds)
-    some (" ; ".intercalate ((showOutcome o ++ " r=" ++ toString s.reads) :: evs))
+    let evs := s.log.reverse.filterMap (showEvent kinds T.rules)
+    match o with
+    | .accept | .reject => some (" ; ".intercalate ((showOutcome o ++ " r=" ++ toString s.reads) :: evs))
+    | _ => some (showOutcome o)
   | _ => none
 
 def handle (op payload : String) : Option String :=
   match op with
   | "lr.parse" => handleParse payload
+  | "lr.validate" => handleValidate payload   -- Lox/LR/DrvValidate.lean
   | _ => none
 
 end Lox.LR
